@@ -12,8 +12,8 @@ def prog_str(program, for_model=False):
         k = c[0]
         if k == 'c': out.append("c" + hx(c[1]))
         elif k == 's': out.append("s")
-        elif k in 'fg': out.append(k + hx(c[1]))
-        elif k in 'atd': out.append(k + hx(c[1]) + ";" + hx(c[2]))
+        elif k in 'fgFG': out.append(k + hx(c[1]))          # upper case: result ignored (implementation-only scenarios)
+        elif k in 'atdAT': out.append(k + hx(c[1]) + ";" + hx(c[2]))
         elif k == 'S':
             if for_model and len(c) > 3: out.append("C" + hx(c[1]) + ";" + hx(c[3]))
             else: out.append("S" + hx(c[1]) + (";" + hx(c[2]) if for_model else ""))
